@@ -179,6 +179,17 @@ def c17_consts():
     for want in [("user ", 5), ("User intent: ", 13), ("bot ", 4), ("Bot intent: ", 12)]:
         _need(want in sl, f"generate_intent_steps_message: {want} expected, found {sl}")
 
+    # ---- taskmanager: a prompt is rendered ONCE (the template is configuration; history, examples,
+    # instructions are inserted as data and never interpreted again)
+    tm = _func(_parse("nemoguardrails/llm/taskmanager.py"), "_render_string")
+    n_render = len(_calls(tm, "render"))
+    n_rec = len(_calls(tm, "_render_string")) + len(_calls(tm, "render_task_prompt"))
+    n_from = len(_calls(tm, "from_string"))
+    _need(n_render >= 1 and n_from >= 1, "taskmanager._render_string: from_string + render expected")
+    rets = [n for n in ast.walk(tm) if isinstance(n, ast.Return)]
+    direct = len(rets) == 1 and isinstance(rets[0].value, ast.Call) and getattr(rets[0].value.func, "attr", None) == "render"
+    r["prompt_render_passes"] = 1 if (n_render == 1 and n_from == 1 and n_rec == 0 and direct) else 2
+
     # ---- v1 runtime
     rt = _parse(RT1)
     fn = _func(rt, "_process_start_action")
@@ -276,6 +287,7 @@ def emit(r):
         f"Definition c_internal_error_intent : string := {cs(r['internal_error_intent'])}.",
         f"Definition strip_quotes_guarded : bool := {coq_bool(r['strip_quotes_guarded'])}.",
         f"Definition validate_wrapped : bool := {coq_bool(r['validate_wrapped'])}.",
+        f"Definition prompt_render_passes : nat := {r['prompt_render_passes']}.",
         f"Definition clean_guarded : bool := {coq_bool(r['clean_guarded'])}.",
         f"Definition value_keys_checked : bool := {coq_bool(r['value_keys_checked'])}.",
         f"Definition c_max_multi_step_lines : nat := {r['max_multi_step_lines']}.",
